@@ -177,3 +177,13 @@ func init() {
 		}
 	})
 }
+
+func init() {
+	if os.Getenv("DBG_ENTRY") == "" {
+		return
+	}
+	register("DBGE", func(p *Prog, r *Report) {
+		f := p.Func(os.Getenv("DBG_PKG"), os.Getenv("DBG_ENTRY"))
+		fmt.Println("ENTRY", relList(p.entryRels(f)))
+	})
+}
